@@ -255,7 +255,8 @@ pub fn gen_shapes_batch(d: &mut D, n: usize) -> Vec<Spec> {
         // families separately, so any interaction of words of any size inside a family is covered), and the same
         // pattern in both families at once
         for k in 1..32usize {
-            for m in [k << 1, k << 6, (k << 1) | (k << 6)] {
+            // (the last two: the same words in both families except for `newtype` on one side only)
+            for m in [k << 1, k << 6, (k << 1) | (k << 6), (k << 1) | ((k ^ 4) << 6), ((k ^ 4) << 1) | (k << 6)] {
                 if !masks.contains(&m) {
                     masks.push(m);
                 }
@@ -279,7 +280,7 @@ pub fn gen_shapes_batch(d: &mut D, n: usize) -> Vec<Spec> {
                 masks.push(m);
             }
         }
-        masks.truncate(n.max(134));
+        masks.truncate(n.max(190));
     }
     let mut specs = vec![];
     for m in masks {
